@@ -182,7 +182,8 @@ def lookup_order(ctx, res):
                 and any("add_trait" in a for a in t[2])]
         looks = [i for i, t in enumerate(p.trace[:fire[-1]])
                  if t[0] == "call" and t[3] == recv
-                 and t[1] in ("dict_getitem", "PyDict_GetItem", "get_trait")]
+                 and (t[1] in ("dict_getitem", "PyDict_GetItem", "get_trait")
+                      or t[1] in facts._lookup_like)]
         if adds:
             n_add += 1
         if not looks:
